@@ -10,9 +10,12 @@ fuel (every pass polls at least once), `alphabeta` takes fuel bounded by
 -/
 import ChessVerif.Model.MoveGen
 import ChessVerif.Model.ScoreOps
+import ChessVerif.Gen.EngineConsts
 
 namespace Chess.Engine
 open Chess
+open Chess.Gen.EngineConsts (queenValue rookValue bishopValue knightValue pawnValue limitBlackAhead limitWhiteAhead
+  distWeight edgeWeight mobilityWeight edgeMix)
 
 /-- `ThreeFold`: `HashMap<Board, u8>` keyed by `Board`'s `Eq`, hashed by `zobrist()`; modelled as an
 association list (sound when equal boards hash equal: C04) with saturating `u8` counts -/
@@ -75,20 +78,21 @@ def updateCutoff (c : Color) (alpha beta score : Score) : Score × Score :=
   | .white => (Score.maxS score alpha, beta)
   | .black => (alpha, Score.minS score beta)
 
-/-- `DIST_FROM_EDGE[pos]` (a `static` computed by a `while` loop in the source) -/
+/-- `DIST_FROM_EDGE[pos]` (a `static` computed by a `while` loop in the source).  The numbers of the evaluation
+(piece values, end-game limits, weights) are read from the source by `tools/translate.py` (`Gen/EngineConsts.lean`). -/
 def distFromEdge (s : Sq) : Nat :=
   let f := s.file.val
   let r := s.rank.val
   let fe := if f < 7 - f then f else 7 - f
   let re := if r < 7 - r then r else 7 - r
-  fe * re * 10 + fe * fe + re * re
+  fe * re * edgeMix + fe * fe + re * re
 
 /-- `Engine::score_pieces` with `positional = false` -/
 def scorePieces (b : Board) (c : Color) : Int :=
   let mine := b.raw.color c
-  ((BB.count (mine &&& b.raw.queen) * 900 + BB.count (mine &&& b.raw.rook) * 500 +
-    BB.count (mine &&& b.raw.bishop) * 330 + BB.count (mine &&& b.raw.knight) * 320 +
-    BB.count (mine &&& b.raw.pawn) * 100 : Nat) : Int)
+  ((BB.count (mine &&& b.raw.queen) * queenValue + BB.count (mine &&& b.raw.rook) * rookValue +
+    BB.count (mine &&& b.raw.bishop) * bishopValue + BB.count (mine &&& b.raw.knight) * knightValue +
+    BB.count (mine &&& b.raw.pawn) * pawnValue : Nat) : Int)
 
 /-- `Engine::eval_endgame` -/
 def evalEndgame (b : Board) (better : Color) : Int :=
@@ -96,7 +100,7 @@ def evalEndgame (b : Board) (better : Color) : Int :=
   let wk := b.kingSq better.flip
   let kingMoves := (MoveGen.kingLegals b better.flip).len
   let dist := Lookup.distance bk wk
-  ((dist * dist * 100 + distFromEdge wk * 10 + kingMoves * 1000 : Nat) : Int)
+  ((dist * dist * distWeight + distFromEdge wk * edgeWeight + kingMoves * mobilityWeight : Nat) : Int)
 
 /-- `Engine::eval` with `positional = false` (the caller increments `moves_evaluated`) -/
 def eval (b : Board) : Score :=
@@ -105,9 +109,9 @@ def eval (b : Board) : Score :=
   let k := scorePieces b .black
   let diff := w - k
   let (we, be) : Int × Int :=
-    if diff < 0 then (if k < 1800 then (evalEndgame b .black, 0) else (0, 0))
+    if diff < 0 then (if k < limitBlackAhead then (evalEndgame b .black, 0) else (0, 0))
     else if diff = 0 then (0, 0)
-    else (if w < 1800 then (0, evalEndgame b .white) else (0, 0))
+    else (if w < limitWhiteAhead then (0, evalEndgame b .white) else (0, 0))
   .raw ((w + we) - (k + be))
 
 /-- `Engine::insuffient_material` -/
